@@ -1745,6 +1745,30 @@ def mutate_header(rng, header):
     return op, " ".join(out)
 
 
+def fty_of_field(f, attrs, get_type_info):
+    """abstraction of a Field to the shape `get_type_info` dispatches on (Sem/StubText.lean `FTy`): the nesting
+    combinators (AnyOf/OneOf/AllOf -> Optional/Union, Map -> dict[..]) are rendered by the MODEL; every other kind is a
+    leaf whose annotation is read off the real get_type_info.  None = outside the modelled annotation language."""
+    from typedpy.fields import AllOf, AnyOf, Map, OneOf
+    from typedpy.structures import NoneField
+    for k, v in attrs.items():
+        if v is f:
+            return {"leaf": {"n": [k]}} if re.fullmatch(r"[A-Za-z_][A-Za-z0-9_]*", k) else None
+    if isinstance(f, (AnyOf, OneOf, AllOf)):
+        fs = getattr(f, "_fields", [])
+        if len(fs) == 2 and isinstance(fs[1], NoneField):
+            x = fty_of_field(fs[0], attrs, get_type_info)
+            return None if x is None else {"opt": x}
+        xs = [fty_of_field(x, attrs, get_type_info) for x in fs]
+        return None if (not xs or any(x is None for x in xs)) else {"union": xs}
+    if isinstance(f, Map) and f.items:
+        xs = [fty_of_field(x, attrs, get_type_info) for x in f.items]
+        return None if any(x is None for x in xs) else {"map": xs}
+    t = get_type_info(f, attrs, set())
+    a = ann_of_text(t) if isinstance(t, str) else None
+    return None if a is None else {"leaf": a}
+
+
 def text_view(case, mod, text, spec_by_name, targets, runtime, parsed_ok, sigs=None):
     """what goes to the Lean driver (`wire`) and CPython's own verdicts on the same header texts (`py`)"""
     defs, classes = scan_headers(text)
@@ -1799,14 +1823,17 @@ def text_view(case, mod, text, spec_by_name, targets, runtime, parsed_ok, sigs=N
         for n, f in cls.get_all_fields_by_name().items():
             if n in cls._constants:
                 continue
-            t = get_type_info(f, vars(mod), set())
-            a = ann_of_text(t) if isinstance(t, str) else None
+            try:
+                a = fty_of_field(f, vars(mod), get_type_info)
+            except Exception as e:      # typedpy-internal API moved: no per-class tie for this class (tagged), no alarm
+                a, bad = None, f"{n}: get_type_info raised {type(e).__name__}: {e}"[:200]
+                break
             if a is None:
-                bad = f"{n}: {t!r}"
+                bad = f"{n}: annotation outside the modelled language"
                 break
             anns.append([n, a])
         if bad:
-            py["skipped"][name] = "annotation outside the modelled language: " + bad
+            py["skipped"][name] = bad
             continue
         entry = {"i": ti, "anns": anns}
         one = lambda mn: seg(meths[mn][0]) if len(meths.get(mn, [])) == 1 else None
